@@ -57,7 +57,10 @@ CLAIMED = {
              "unprotected with err_get_code()), oracle fit-or-error + usability probe; (3) allocation-fault enumeration "
              "on an ALLOC=DYNAMIC build: every allocation of 30 workload operations (bn, fp, ep, pairing, ECDSA/ECSS/ECDH) "
              "is failed in turn (exhaustively up to a cap, evenly sampled above), oracle: error reported or same result, "
-             "no sanitizer report, same result afterwards.",
+             "no sanitizer report, same result afterwards; (4) the scalar-multiplication / fixed-base / simultaneous "
+             "targets of the prime, extension-field, binary and Edwards curves and of the pairing groups and the "
+             "RSA / ECDSA / ECIES writers are re-run here with the memory clause as the only oracle (sanitizer report, "
+             "crash, broken handler chain), so that the stack scratch arrays and recodings are decided by this check itself.",
         note="Objects are never forged. Leaks on error paths are recorded as observations (outside the statement). The "
              "finalisation-after-allocation-failure crash sites found on the unchanged tree are a listed known finding, "
              "matched by call site; any other site is a violation.",
